@@ -32,7 +32,18 @@ class IterFail(Exception):
     pass
 
 
-def task(i, fails):
+class DuplicateExecution(Exception):
+    pass
+
+
+RAN = set()
+
+
+def task(i, fails, call_no=0):
+    if (call_no, i) in RAN:
+        # (also keeps a run that re-executes tasks for ever from hanging the driver)
+        raise DuplicateExecution("task %d of call %d executed twice" % (i, call_no))
+    RAN.add((call_no, i))
     if fails:
         raise TaskFail(i)
     return i
@@ -41,8 +52,8 @@ def task(i, fails):
 class Input:
     """the input of one call: counts the successful pulls; pull number `ifail` raises (ifail == N: at the end)"""
 
-    def __init__(self, N, ifail, tfail, sized):
-        self.N, self.ifail, self.tfail, self.sized = N, ifail, tfail, sized
+    def __init__(self, N, ifail, tfail, sized, call_no=0):
+        self.N, self.ifail, self.tfail, self.sized, self.call_no = N, ifail, tfail, sized, call_no
         self.pulls = 0
 
     def __iter__(self):
@@ -55,7 +66,20 @@ class Input:
         if k >= self.N:
             raise StopIteration
         self.pulls += 1
-        return delayed(task)(k, k == self.tfail)
+        return delayed(task)(k, k == self.tfail, self.call_no)
+
+
+class ListInput(list):
+    """a list whose iterators report how far they got (a fresh iterator starts at the head again)"""
+    counter = None
+
+    def __iter__(self):
+        def it():
+            for k, x in enumerate(list.__iter__(self)):
+                if self.counter is not None:
+                    self.counter.pulls = max(self.counter.pulls, k + 1)
+                yield x
+        return it()
 
 
 class SizedInput(Input):
@@ -70,6 +94,8 @@ def classify(e):
         return ["raised", "iter", 0]
     if isinstance(e, RuntimeError) and "already running" in str(e):
         return ["raised", "runtime", 0]
+    if isinstance(e, DuplicateExecution):
+        return ["raised", "DuplicateExecution", str(e)]
     return ["raised", type(e).__name__, str(e)[:200]]
 
 
@@ -87,14 +113,23 @@ def run_case(c):
         g = lambda name: getattr(p, name, 0)       # noqa: E731  (an attribute that was never set reads as 0 / False)
         return [cur.pulls if cur is not None else 0, g("n_dispatched_tasks"), g("n_completed_tasks"), g("_nb_consumed"),
                 int(bool(g("_iterating"))), int(bool(g("_aborting"))), int(bool(g("_exception"))), int(bool(g("_running")))]
+    ncall = 0
     for ev in c["events"]:
         k = ev[0]
         o = None
         if k == "call":
             _, N, ifail, tfail, sized = ev
-            inp = (SizedInput if sized and ifail is None else Input)(N, ifail, tfail, sized)
+            ncall += 1
+            inp = (SizedInput if sized and ifail is None else Input)(N, ifail, tfail, sized, ncall)
+            given = inp
+            if c.get("relist") and ifail is None:
+                # a plain, re-iterable list of tasks (the most common input of all); the model's pull counter is then
+                # read off the list: every item the loop has reached
+                given = ListInput(list(inp))
+                inp.pulls = 0
+                given.counter = inp
             try:
-                r = p(inp)
+                r = p(given)
                 if c["gen"]:
                     gen, cur = r, inp
                     o = ["gen"]
@@ -142,6 +177,7 @@ for line in sys.stdin:
     if not line:
         continue
     c = json.loads(line)
+    RAN.clear()
     try:
         r = run_case(c)
     except BaseException as e:  # noqa
